@@ -441,7 +441,7 @@ func Check() *engine.Check {
 		Rule: "three full products through the real proxy handler chain, real httputil.ReverseProxy and a recording upstream on loopback: " +
 			"(url) request paths of 1-3 segments over {api,v1,a%20b,%C3%A4,x%2Fy,~t,%7Et} x 6 queries (repeated, encoded, empty-valued, " +
 			"semicolon) x every rewrite configuration (scheme x 5 strip prefixes x 3 add prefixes x 4 query removals) x encoded-slash settings; " +
-			"(body) 5 methods x bodies of 0/1/70 KiB x URLs x rewrites, and 4 methods x 7 typed bodies (JSON/form/YAML that decode or not, text) x " +
+			"(body) 9 method tokens (incl. lower / mixed case and an extension method) x bodies of 0/1/70 KiB x URLs x rewrites, and 4 methods x 7 typed bodies (JSON/form/YAML that decode or not, text) x " +
 			"known/unknown length x pipeline with/without a step reading Request.Body; (headers) pipeline headers X-User/Authorization/Host against all subsets of " +
 			"same-named client headers in 4 casings, single and repeated, and client-sent Forwarded/X-Forwarded-* from trusted and untrusted peers; " +
 			"oracle: reference rewrite on octets (strip then add on the escaped path, escapes byte-identical, no double encoding), query as decoded " +
@@ -560,7 +560,8 @@ func run(c *engine.Ctx) {
 			return
 		}
 
-		for _, m := range []string{"GET", "POST", "PUT", "DELETE", "PATCH"} {
+		// method tokens are case sensitive and forwarded as sent (extension methods and unusual casing included)
+		for _, m := range []string{"GET", "POST", "PUT", "DELETE", "PATCH", "patch", "Delete", "M-SEARCH", "m-search"} {
 			for _, n := range []int{0, 1, 70 * 1024} {
 				for _, p := range []string{"/api/v1", "/a%20b", "/api/%C3%A4", "/"} {
 					judge(c, f, &Case{Part: "body", Rewrite: rw, Slashes: "off", Method: m, Path: p, Query: "a=1&b=2", BodySize: n, Peer: untrustedPeer})
